@@ -255,6 +255,27 @@ def compBinary (nr nt : Nat) (A : List (List Rat)) (draws : List Nat) : Option (
   let F := attenuate (binaryChannel nr nt draws) A
   mimoBpsk nt (matVec F (bpskSymbols nt (draws.drop (nr * nt)))) F
 
+/-- the stacked real system of a complex one: `F' = [[Fr, −Fi], [Fi, Fr]]` (the unknowns: real parts, then imaginary parts) -/
+def stackF (Fr Fi : List (List Rat)) : List (List Rat) :=
+  (Fr.zip Fi).map (fun p => p.1 ++ p.2.map (fun a => -a)) ++ (Fr.zip Fi).map (fun p => p.2 ++ p.1)
+
+/-- `np.iscomplex(h).any() or np.iscomplex(J).any()` for `h = −2·F†y`, `J = F†F`:
+    `Im h = −2·(Frᵀyi − Fiᵀyr)`, `Im J = FrᵀFi − FiᵀFr` -/
+def qpskIsComplex (nt : Nat) (yr yi : List Rat) (Fr Fi : List (List Rat)) : Bool :=
+  (List.range nt).any (fun i => decide (-2 * (dot (col Fr i) yi - dot (col Fi i) yr) ≠ 0))
+  || (List.range nt).any (fun i => (List.range nt).any (fun j => decide (dot (col Fr i) (col Fi j) - dot (col Fi i) (col Fr j) ≠ 0)))
+
+/-- `mimo('QPSK', y, F)` (one amplitude per quadrature) for complex `y = yr + i·yi`, `F = Fr + i·Fi`, as coded
+    (`_real_quadratic_form`): when `h` or `J` has a non-zero imaginary part the variables are the real parts of the `nt`
+    symbols followed by their imaginary parts, `hR = (Re h, Im h)`, `JR = [[Re J, (Im J)ᵀ], [Im J, Re J]]` — these are the `h`, `J`
+    of the stacked real system `y' = (yr; yi)`, `F' = stackF`; otherwise only `Re h`, `Re J` on `nt` variables (the `h`, `J` of
+    `y' = (yr; yi)`, `F'' = [Fr; Fi]`): the imaginary parts of the symbols are then absent from the model -/
+def mimoQpsk (nt : Nat) (yr yi : List Rat) (Fr Fi : List (List Rat)) : Option (List (PTerm Label)) :=
+  if Fr.length ≠ yr.length ∨ Fi.length ≠ yi.length ∨ yr.length ≠ yi.length
+      ∨ Fr.any (fun row => row.length ≠ nt) ∨ Fi.any (fun row => row.length ≠ nt) then none
+  else if qpskIsComplex nt yr yi Fr Fi then mimoBpsk (2 * nt) (yr ++ yi) (stackF Fr Fi)
+  else mimoBpsk nt (yr ++ yi) (Fr ++ Fi)
+
 /-! ## `multiplication_circuit` with a one-bit argument (as repaired by patches/multiplication-circuit-one-bit.diff) -/
 
 /-- the AND gates of the one-bit branch: `and_gate(a_i, b_j, p_{i+j})` in `product(range(n), range(m))` order -/
